@@ -125,6 +125,8 @@ def judge_point(ctx, d, x, y, kind="jacobi", enum=False):
         elif kind == "jacobi-z":
             z = 3
             obj = PointJacobi(d.lib.curve, x * z * z % d.p, y * z * z * z % d.p, z)
+        elif kind == "legacy-ordered":
+            obj = Point(d.lib.curve, x, y, d.n)
         else:
             obj = Point(d.lib.curve, x, y)
         vk = VerifyingKey.from_public_point(obj, curve=d.lib)
@@ -221,6 +223,18 @@ def toy1_sweep(ctx, cname, part, nparts, prefixes):
         for P in rec.points(d.c):
             judge_point(ctx, d, P[0], P[1], "legacy")
             judge_point(ctx, d, P[0], P[1], "jacobi-z")
+            if P[0] + d.p < 1 << 12:
+                judge_point(ctx, d, P[0] + d.p, P[1], "legacy")
+                judge_point(ctx, d, P[0], P[1] - d.p, "legacy")
+        # the same curve built by a user who omits the cofactor argument: validation must be as strict
+        if d.h != 1:
+            d2 = gen.toy_cofactor_noh(d.p, d.c[1], d.c[2])
+            for P in rec.points(d.c):
+                raw = P[0].to_bytes(d.plen, "big") + P[1].to_bytes(d.plen, "big")
+                judge_string(ctx, d2, raw)
+                judge_string(ctx, d2, b"\x04" + raw)
+                judge_point(ctx, d2, P[0], P[1], "jacobi")
+                judge_point(ctx, d2, P[0], P[1], "jacobi-ordered")
 
 
 def toy2_sweep(ctx, cname, part, nparts, full_prefixes, stride_prefixes):
@@ -295,6 +309,11 @@ def named_cases(ctx, cname, per, seed):
         judge_point(ctx, d, x, (y + 1) % p, "jacobi")
         judge_point(ctx, d, x + p, y, "jacobi")
         judge_point(ctx, d, x, y + p, "jacobi")
+        # legacy Point objects accept any representative of the coordinates mod p at construction
+        judge_point(ctx, d, x + p, y, "legacy")
+        judge_point(ctx, d, x, y + p, "legacy")
+        judge_point(ctx, d, x, y - p, "legacy")
+        judge_point(ctx, d, x + p, y + p, "legacy")
         # wrappers
         oid = rder.CURVE_OIDS[cname]
         good = rder.enc_spki(oid, b"\x04" + xb + yb)
